@@ -475,9 +475,9 @@ def two_operand_dest_defined(db, rep, rule="D12-DEST-DEFINED"):
                     blk = f.blocks[b]
                     if blk.cond is None or f.edge_kind(b, idx) not in (True, False):
                         return True
-                    c = strip_casts(blk.cond)
+                    c, pol = atom(blk.cond, f.edge_kind(b, idx))            # `!(a == b)`, `a != b`, ... are one atom
                     while c is not None and c.k == "ParenExpr":
-                        c = strip_casts(c.c[0])
+                        c, pol = atom(c.c[0], pol)
                     if c is None or c.k != "BinaryOperator" or c.op not in ("!=", "=="):
                         return True
                     l, r = key(c.c[0], kind), key(c.c[1], kind)
@@ -486,7 +486,7 @@ def two_operand_dest_defined(db, rep, rule="D12-DEST-DEFINED"):
                     other = r if l == reg else l
                     if kind.get(other) != "src":
                         return True
-                    equal_edge = (c.op == "==") == f.edge_kind(b, idx)
+                    equal_edge = (c.op == "==") == pol
                     return not equal_edge
                 return flt
             # `punpckl?? x, R ; psra?/psrl? $w, R` with w = the width of the unpacked element: the lanes R contributed are shifted
@@ -518,15 +518,15 @@ def two_operand_dest_defined(db, rep, rule="D12-DEST-DEFINED"):
 
             def norm_cond(cnd):
                 """(text, polarity) of an atomic comparison over the function's constant locals, or None"""
-                c = strip_casts(cnd)
+                c, pol = atom(cnd, True)
                 while c is not None and c.k == "ParenExpr":
-                    c = strip_casts(c.c[0])
+                    c, pol = atom(c.c[0], pol)
                 if c is None or c.k != "BinaryOperator" or c.op not in ("!=", "=="):
                     return None
                 l, r = unparse(strip_casts(c.c[0])), unparse(strip_casts(c.c[1]))
                 if l > r:
                     l, r = r, l
-                return ("%s==%s" % (l, r), c.op == "==")
+                return ("%s==%s" % (l, r), (c.op == "==") == pol)
 
             def undefined_path(c, reg):
                 """a branch-consistent path from the entry to c on which nothing defines reg and reg is not known to be a source"""
